@@ -1263,3 +1263,20 @@ def _group_transform_expr(repo, ob, failure):
 
 GENERATORS.insert(0, ("C14.group.box", _group_transform_expr))
 GENERATORS.insert(0, ("C08.group.box", _group_transform_expr))
+
+
+def _group_attr_scope(repo, ob, failure):
+    """the attributes of a <g> are evaluated in the enclosing scope, then shadow it for the descendants"""
+    import re as _re
+    cases = [('<svg><var b="1"/><g a="$b" b="7"><text text="$a"/></g></svg>', "1"),
+             ('<svg><var a="1"/><g a="{{$a + 1}}"><text text="$a"/></g></svg>', "2"),
+             ('<svg><var b="1"/><g a="$b"><var b="2"/><text text="$a"/></g></svg>', "1")]
+    for doc, want in cases:
+        r = run_svgdx(repo, doc)
+        texts = _re.findall(r"<text[^>]*>([^<]*)</text>", r["out"]) if r["rc"] == 0 else ["error: " + r["err"].strip()[-80:]]
+        if not texts or texts[-1] != want:
+            return {"input": doc, "observed": "$a is %r inside the group" % (texts[-1] if texts else None), "expected": repr(want)}
+    return None
+
+
+GENERATORS.insert(0, ("C15.push.attributes", _group_attr_scope))
